@@ -2,6 +2,7 @@ import VaxisModel.Driver.Common
 import VaxisModel.Driver.C09
 import VaxisModel.Model.TermKey
 import VaxisModel.Model.TermMouse
+import VaxisModel.Model.TermInputModes
 import VaxisModel.Spec.TermInput
 
 /-! Driver for C13 (keys, pastes and mouse forwarded into the embedded terminal). Stateless lines.
@@ -17,11 +18,15 @@ Ops (`op<TAB>impl`):
   key U key modes      impl = out|seqs|decoded      out = runes written; decoded = decodeKey(first seq)
   mouse modes mouse    impl = ret|written|seqs|pm    pm = parseMouseEvent(first seq) as button,col,row,event,mods
   paste modes start|end  impl = out|seqs
+  ckey U script key / cmouse script mouse / cpaste script start|end
+                       the same, but the modes are whatever the child's own output `script` selected: the harness
+                       feeds the bytes through the real parser and Model.update; the oracle uses Spec.specModes
 -/
 namespace VaxisModel.Driver.C13
 open VaxisModel.Driver VaxisModel.Driver.C09
 open VaxisModel.Model.Key VaxisModel.Model.Mouse VaxisModel.Model.TermKey VaxisModel.Model.TermMouse
 open VaxisModel.Spec VaxisModel.Spec.TermInput
+open VaxisModel.Model.TermInputModes (ChildOp childModes)
 
 def modesOf (n : Nat) : Modes :=
   { deckpam := bit n 0, decckm := bit n 1, paste := bit n 2, mouseButtons := bit n 3, mouseDrag := bit n 4,
@@ -105,57 +110,85 @@ def mouseVerdict (md : Modes) (m : Mouse) (seqs : List PSeq) (pmTok : String) : 
         | none => "FAIL [mouse round trip] Vaxis does not parse the report back"
   else "-"
 
+/-- `s1.1006,r1000,pam,pnm,ris` — what the child wrote before the event ('-' = nothing). -/
+def parseScript? (tok : String) : Option (List ChildOp) :=
+  if tok = "-" ∨ tok = "" then some [] else
+  (tok.splitOn ",").mapM fun t =>
+    if t = "pam" then some .pam
+    else if t = "pnm" then some .pnm
+    else if t = "ris" then some .ris
+    else if t.startsWith "s" then (sepInts? "." (t.drop 1).toString).map .set
+    else if t.startsWith "r" then (sepInts? "." (t.drop 1).toString).map .reset
+    else none
+
+/-- `mdM` = the modes the model of the code is in, `mdS` = the modes the child selected according to
+    the Spec (they coincide for the ops that set the modes through the hook). -/
+def keyStep (u : Uni) (k : Key) (mdM mdS : Modes) (impl : String) : String :=
+  let out := encodeXterm u k mdM.deckpam mdM.decckm
+  let seqTok := field impl 1
+  match parsePSeqs? seqTok with
+  | none => bad
+  | some seqs =>
+    let mdk : String := match seqs with
+      | .plain s :: _ => showKey (decodeKey u s)
+      | _ => "-"
+    let model := s!"{showStr out}|{seqTok}|{mdk}"
+    s!"{model}\t{impl}\t{keyVerdict u k mdS seqs (field impl 2)}"
+
+def mouseStep (m : Mouse) (mdM mdS : Modes) (impl : String) : String :=
+  let (w, r) := handleMouse mdM m
+  let seqTok := field impl 2
+  match parsePSeqs? seqTok with
+  | none => bad
+  | some seqs =>
+    let mpm : String := match seqs with
+      | .csiI inter params fin :: _ => match parseMouseEvent inter params fin with
+          | some pm => showMouse pm
+          | none => "-"
+      | _ => "-"
+    let model := s!"{showStr r}|{showStr w}|{seqTok}|{mpm}"
+    s!"{model}\t{impl}\t{mouseVerdict mdS m seqs (field impl 3)}"
+
+def pasteStep (which : String) (mdM mdS : Modes) (impl : String) : String :=
+  let dummy : Uni := mkUni [] []
+  let out := update dummy mdM (if which = "start" then .pasteStart else .pasteEnd)
+  let seqTok := field impl 1
+  match parsePSeqs? seqTok with
+  | none => bad
+  | some seqs =>
+    let want : List PSeq := if mdS.paste then [.plain (if which = "start" then pasteStartSeq else pasteEndSeq)] else []
+    let v := if seqs = want then "ok"
+      else if mdS.paste then "FAIL [paste] bracketed-paste marker not sent although the child enabled mode 2004"
+      else "FAIL [paste not enabled] bytes were written although the child has not enabled bracketed paste"
+    s!"{showStr out}|{seqTok}\t{impl}\t{v}"
+
 def step (line : String) : String :=
   let (op, impl) := splitTab line
   match fields op with
   | ["key", ut, kt, mt] =>
     match parseU? ut, parseKey? kt, mt.toNat? with
-    | some t, some k, some mn =>
-      let u := mkUni t []
-      let md := modesOf mn
-      let out := encodeXterm u k md.deckpam md.decckm
-      let seqTok := field impl 1
-      match parsePSeqs? seqTok with
-      | none => bad
-      | some seqs =>
-        let mdk : String := match seqs with
-          | .plain s :: _ => showKey (decodeKey u s)
-          | _ => "-"
-        let model := s!"{showStr out}|{seqTok}|{mdk}"
-        s!"{model}\t{impl}\t{keyVerdict u k md seqs (field impl 2)}"
+    | some t, some k, some mn => keyStep (mkUni t []) k (modesOf mn) (modesOf mn) impl
     | _, _, _ => bad
   | ["mouse", mt, mst] =>
     match mt.toNat?, parseMouse? mst with
-    | some mn, some m =>
-      let md := modesOf mn
-      let (w, r) := handleMouse md m
-      let seqTok := field impl 2
-      match parsePSeqs? seqTok with
-      | none => bad
-      | some seqs =>
-        let mpm : String := match seqs with
-          | .csiI inter params fin :: _ => match parseMouseEvent inter params fin with
-              | some pm => showMouse pm
-              | none => "-"
-          | _ => "-"
-        let model := s!"{showStr r}|{showStr w}|{seqTok}|{mpm}"
-        s!"{model}\t{impl}\t{mouseVerdict md m seqs (field impl 3)}"
+    | some mn, some m => mouseStep m (modesOf mn) (modesOf mn) impl
     | _, _ => bad
   | ["paste", mt, which] =>
     match mt.toNat? with
-    | some mn =>
-      let md := modesOf mn
-      let dummy : Uni := mkUni [] []
-      let out := update dummy md (if which = "start" then .pasteStart else .pasteEnd)
-      let seqTok := field impl 1
-      match parsePSeqs? seqTok with
-      | none => bad
-      | some seqs =>
-        let want : List PSeq := if md.paste then [.plain (if which = "start" then pasteStartSeq else pasteEndSeq)] else []
-        let v := if seqs = want then "ok"
-          else if md.paste then "FAIL [paste] bracketed-paste marker not sent although the child enabled mode 2004"
-          else "FAIL [paste not enabled] bytes were written although the child has not enabled bracketed paste"
-        s!"{showStr out}|{seqTok}\t{impl}\t{v}"
+    | some mn => pasteStep which (modesOf mn) (modesOf mn) impl
+    | none => bad
+  -- the same three, with the modes established by what the child wrote (real parser + Model.update)
+  | ["ckey", ut, sc, kt] =>
+    match parseU? ut, parseScript? sc, parseKey? kt with
+    | some t, some ops, some k => keyStep (mkUni t []) k (childModes ops) (specModes ops) impl
+    | _, _, _ => bad
+  | ["cmouse", sc, mst] =>
+    match parseScript? sc, parseMouse? mst with
+    | some ops, some m => mouseStep m (childModes ops) (specModes ops) impl
+    | _, _ => bad
+  | ["cpaste", sc, which] =>
+    match parseScript? sc with
+    | some ops => pasteStep which (childModes ops) (specModes ops) impl
     | none => bad
   | _ => bad
 
